@@ -27,6 +27,29 @@ REQUIRED = [
     "Pixman.Props.C17.step_refines_map",
     "Pixman.Props.C17.run_refines_map",
     "Pixman.Props.C17.entry_disappears_only_by_remove_or_thaw",
+    # failed insertion (the private image copy cannot be allocated)
+    "Pixman.Props.C17.failed_insert_changes_nothing",
+    "Pixman.Props.C17.failed_insert_eq_lookup_state",
+    "Pixman.Props.C17.run_failed_inserts_change_nothing",
+    "Pixman.Props.C17.failed_insert_refines",
+    # histories without the insertion discipline (duplicate keys)
+    "Pixman.Props.C17.run_any_history_inv",
+    "Pixman.Props.C17.lookup_any_history",
+    "Pixman.Props.C17.step_any_history",
+    "Pixman.Props.C17.absStepG_eq_absStep",
+    "Pixman.Props.C17.duplicate_insert_shadowing",
+    "Pixman.Props.C17.duplicate_insert_breaks_map_view",
+    "Pixman.Props.C17.entry_disappears_only_by_remove_or_thaw_any_history",
+    # glyph drawing, model level (on C03's composite region and a per-pixel combiner)
+    "Pixman.Props.C17Draw.image_composite_paints_R",
+    "Pixman.Props.C17Draw.composite_glyphs_no_mask_is_per_glyph",
+    "Pixman.Props.C17Draw.glyph_paints_its_box",
+    "Pixman.Props.C17Draw.add_glyphs_is_per_glyph_add",
+    "Pixman.Props.C17Draw.composite_glyphs_is_accumulate_then_composite",
+    "Pixman.Props.C17Draw.addWhiteA8_sat",
+    "Pixman.Props.C17Draw.a8_same_format",
+    "Pixman.Props.C17Draw.a8_accumulate_sum",
+    "Pixman.Props.C17Draw.a8_accumulate_order_independent",
 ]
 
 M64 = (1 << 64) - 1
@@ -62,18 +85,38 @@ def pick_keys(hs, n):
     return keys[:n]
 
 
+_cluster_default = []
+
+
+def cluster_default():
+    """keys (font 0) that collide or fall into adjacent slots of the default 32768-slot table"""
+    if not _cluster_default:
+        by = collections.defaultdict(list)
+        for k in range(1, 120000):
+            by[wang(0, k) % 32768].append(k)
+        base = max(by, key=lambda s: sum(len(by[(s + d) % 32768]) for d in range(3)))
+        for d in range(3):
+            _cluster_default.extend(by[(base + d) % 32768])
+    return _cluster_default
+
+
 def oracle(line, out, hs, high, low):
-    """Abstract-map oracle on the implementation's own answers (independent of the Lean model):
-    every operation terminates; a lookup returns the entry the map holds for the key, or NULL;
-    an entry may be missing only if it was removed, or if a thaw that reached freeze count 0
-    happened since it was inserted (eviction); a never-inserted or removed key is never found.
-    Binding for histories that insert a key only while it is absent."""
+    """Abstract-(multi)map oracle on the implementation's own answers (independent of the Lean
+    model): every operation terminates; a lookup returns an entry that was inserted under the key
+    and not since removed, or NULL; NULL only if every entry of the key was removed, or a thaw that
+    reached freeze count 0 happened since (eviction); a never-inserted or fully removed key is never
+    found; an insertion whose image copy cannot be allocated (X) is refused and changes nothing.
+    For histories that insert a key only while it is absent this is the map of the property
+    statement (exactly one candidate per key).  A key inserted while present (caller error) has
+    several candidates: the code keeps all of them, lookup returns the first in probe order and
+    remove deletes that one (Props/C17: lookup_any_history, step_any_history)."""
     toks = line.split()[4:]
     res = out.split(" | ")[0].split()
     if "HANG" in out:
         return "an operation did not terminate"
-    live = {}          # key -> id
-    evictable = set()  # keys that were live at a thaw reaching 0
+    cand = collections.defaultdict(set)    # key -> ids possibly live
+    sure = collections.Counter()           # key -> lower bound on the number of live entries
+    upper = collections.Counter()          # key -> upper bound
     freeze = 0
     for i, (t, r) in enumerate(zip(toks, res)):
         op = t[0]
@@ -82,32 +125,35 @@ def oracle(line, out, hs, high, low):
             freeze += 1
         elif op == "T":
             freeze -= 1
-            if freeze == 0 and len(live) > low:
-                evictable |= set(live)
+            if freeze == 0 and sum(upper.values()) > low:
+                sure.clear()           # anything may have been evicted
         elif op == "I":
             if r.startswith("I"):
-                if key in live:
-                    return None       # duplicate insertion: outside the oracle's scope
-                live[key] = int(r[1:])
-                evictable.discard(key)
+                cand[key].add(int(r[1:]))
+                sure[key] += 1
+                upper[key] += 1
             elif r == "N" and freeze > 0:
                 n_ins = sum(1 for tt in toks[:i] if tt[0] == "I")
                 if n_ins < hs // 2:
                     return f"insert refused at step {i} though at most {n_ins} of {hs} slots were ever used"
+        elif op == "X":
+            if r != "N":
+                return f"failed insert at step {i}: an insertion whose image copy cannot be allocated was accepted"
         elif op == "R":
-            live.pop(key, None)
-            evictable.discard(key)
+            sure[key] = max(0, sure[key] - 1)
+            upper[key] = max(0, upper[key] - 1)
+            if upper[key] == 0:
+                cand[key].clear()
         elif op == "L":
-            want = live.get(key)
             if r == "L-":
-                if want is not None:
-                    if key not in evictable:
-                        return f"lookup at step {i} lost a live entry that nothing removed or evicted"
-                    live.pop(key); evictable.discard(key)
+                if sure[key] > 0:
+                    return f"lookup at step {i} lost a live entry that nothing removed or evicted"
+                upper[key] = 0
+                cand[key].clear()
             else:
                 got = int(r[1:])
-                if want is None or got != want:
-                    return f"lookup at step {i} returned entry {got}, the map holds {want}"
+                if got not in cand[key]:
+                    return f"lookup at step {i} returned entry {got}, the map holds {sorted(cand[key]) or None}"
     return None
 
 
@@ -307,7 +353,7 @@ def run_draw(ctx, b):
 
 
 def run(ctx):
-    broken = ctx.lean_obligations("Pixman.Props.C17", REQUIRED)
+    broken = ctx.lean_obligations("Pixman.Props.C17", REQUIRED, extra_modules=["Pixman.Props.C17Draw"])
     quick = ctx.tier == "quick"
     b = ctx.build_pixman("plain")
     rnd = random.Random(ctx.seed)
@@ -322,7 +368,7 @@ def run(ctx):
                      extra=[f"-DPIXMAN_VERIF_GLYPH_HIGH_WATER={high}", f"-DPIXMAN_VERIF_GLYPH_LOW_WATER={low}", "-w"]
                      if hs != 32768 else ["-w"])
         keys = pick_keys(hs, 3 if hs == 4 else 4 if hs == 8 else 6)
-        sym = ["F", "T"] + [f"{o}:0:{k}" for k in keys for o in "ILRU"]
+        sym = ["F", "T"] + [f"{o}:0:{k}" for k in keys for o in "ILRXU"]
         lines = []
         corpus = VERIF / "corpus" / "glyph" / f"{hs}.txt"
         if corpus.exists():
@@ -334,6 +380,34 @@ def run(ctx):
             for n in range(1, L + 1):
                 for h in itertools.product(symx, repeat=n):
                     lines.append(f"hist {hs} {high} {low} F " + " ".join(h))
+        # failed insertions across tombstones: a cluster of colliding / adjacent keys is inserted, some
+        # are removed (tombstones inside the probe run), then insertions that cannot be honoured (X)
+        # are tried on removed, live and fresh keys of the cluster, then every key is looked up,
+        # every live key removed and looked up again
+        cluster = pick_keys(hs, min(hs, 12)) if hs < 32768 else cluster_default()
+        nscen = (3000 if quick else 40000) if hs < 32768 else 300
+        for _ in range(nscen):
+            cap = hs - 1                        # insert refuses at n_glyphs + n_tombstones >= hs - 1
+            m = rnd.randint(2, max(2, min(len(cluster) - 1, cap)))
+            ks = rnd.sample(cluster, m + 1)
+            ins, spare = ks[:m], ks[m]
+            if rnd.random() < 0.5:
+                ins.sort(key=lambda k: (wang(0, k) % hs, k))
+            h = ["F"] + [f"I:0:{k}" for k in ins]
+            rem = [k for k in ins[:-1] if rnd.random() < 0.5] or [ins[0]]
+            rnd.shuffle(rem)
+            h += [f"R:0:{k}" for k in rem]
+            xs = [k for k in ins + [spare] if rnd.random() < 0.6] or [rem[0]]
+            rnd.shuffle(xs)
+            h += [f"X:0:{k}" for k in xs[:rnd.randint(1, len(xs))]]
+            h += [f"L:0:{k}" for k in ks]
+            if rnd.random() < 0.5:
+                h += [f"I:0:{spare}"] + [f"L:0:{k}" for k in ks]
+            if rnd.random() < 0.5:
+                h += [f"R:0:{k}" for k in ins if k not in rem] + [f"L:0:{k}" for k in ks]
+            if rnd.random() < 0.5:
+                h.append("T")
+            lines.append(f"hist {hs} {high} {low} " + " ".join(h))
         # random longer histories, insertion-heavy so that tables fill and tombstones build up
         nrand = (20000 if quick else 400000) if hs < 32768 else 300
         for _ in range(nrand):
@@ -348,8 +422,10 @@ def run(ctx):
                     h.append(f"I:0:{k}")
                 elif r < 0.7:
                     h.append(f"L:0:{k}")
-                elif r < 0.85:
+                elif r < 0.82:
                     h.append(f"R:0:{k}")
+                elif r < 0.85:
+                    h.append(f"X:0:{k}")
                 elif r < 0.9:
                     h.append(f"U:0:{k}")
                 elif r < 0.95:
@@ -401,7 +477,9 @@ def run(ctx):
     ctx.extra["glyph_drawing"] = {"evaluations": dtotal, "distinct_nontrivial": dnontriv,
                                   "implementation_chains": ["default", "PIXMAN_DISABLE=fast mmx sse2 ssse3"],
                                   "drawn_by_entry_and_operator": dhist}
-    ctx.cov["rule"] = ("cache histories: exhaustive over {F,T,I,L,R}x keys up to a fixed length at table sizes 4 and 8 (water-mark hook), "
+    ctx.cov["rule"] = ("cache histories: exhaustive over {F,T,I,L,R,X}x keys up to a fixed length at table sizes 4 and 8 (water-mark hook; X = insertion whose image "
+                       "copy cannot be allocated: 2^28-pixel-wide a8r8g8b8 user-bits image), failed-insert scenarios (cluster of colliding/adjacent "
+                       "keys inserted, tombstones made inside the probe run, X on removed/live/fresh keys, then every key looked up, removed, looked up), "
                        "random insertion-heavy histories (incl. U = glyph drawn) at sizes 4..32 and the default size; keys chosen to "
                        "collide; each history replayed through the Lean model (results, counters, table slots, MRU order compared) and "
                        "through an abstract-map oracle; non-trivial = distinct history with an insert and a later lookup/remove. "
@@ -420,7 +498,7 @@ def run(ctx):
     # group findings
     groups = collections.OrderedDict()
     for kind, hs, line, a, m, text in findings:
-        sig = f"{kind}|{text.split(' at step')[0]}"
+        sig = f"{kind}|{text.split(' at step')[0]}" + ("|after-failed-insert" if kind == "oracle" and " X:" in line else "")
         groups.setdefault(sig, []).append((kind, hs, line, a, m, text))
     for sig, items in list(groups.items())[:6]:
         kind, hs, line, a, m, text = min(items, key=lambda it: len(it[2]))
@@ -431,8 +509,8 @@ def run(ctx):
                       signature=sig, what=text, tag=f"hs{hs}")
     if broken and not ctx.violations:
         ctx.broken_obligations_verdict(broken, "glyph-cache histories (exhaustive small scope + random) found no failing input")
-    ctx.assumptions += ["histories insert a key only while it is absent for the abstract-map oracle (duplicates are compared with the model only)",
-                        "no allocation failure (C15)"]
+    ctx.assumptions += ["allocation failure inside the cache only as the refused private image copy (X); malloc failure itself is C15",
+                        "drawing theorems: C03's RangeOK for every region computation involved; per-glyph dispatch = composite32 dispatch by correspondence"]
 
 
 def replay(ctx, path):
